@@ -38,11 +38,29 @@ def main(tier, seed):
             rc, o = run([os.path.join(CBUILD, 'g-ir-compiler'), os.path.join(tmp, n + '-1.0.gir'), '-o', os.path.join(tmp, n + '-1.0.typelib')])
             if rc != 0 or o.strip():
                 ck.tie_broken('harness', 'the included namespace %s does not compile: %s' % (n, o[-400:]))
+        # names of GLib that begin with the names of the built-in containers
+        gdir = os.path.join(tmp, 'glibnames')
+        os.makedirs(gdir)
+        open(os.path.join(gdir, 'GLib-2.0.gir'), 'w').write(girgen.GLIB_NAMES_DEP)
+        open(os.path.join(gdir, 'U-1.0.gir'), 'w').write(girgen.GLIB_NAMES_DOC)
+        rc, o = run([os.path.join(CBUILD, 'g-ir-compiler'), os.path.join(gdir, 'GLib-2.0.gir'), '-o', os.path.join(gdir, 'GLib-2.0.typelib')])
+        rc2, o2 = run([os.path.join(CBUILD, 'g-ir-compiler'), '--includedir', gdir, os.path.join(gdir, 'U-1.0.gir'), '-o', os.path.join(gdir, 'U-1.0.typelib')])
+        ck.count_case(dict(document='GLib.HashTableIter, GLib.ErrorType, GLib.ListStoreish, GLib.SListNode used from another namespace'), kind='glib-names')
+        if rc != 0 or rc2 != 0 or o.strip() or o2.strip():
+            ck.failing_input('g-ir-compiler rejected or warned about a valid GIR', dict(gir=girgen.GLIB_NAMES_DOC, included=girgen.GLIB_NAMES_DEP), detail=(o + o2)[-800:])
+        else:
+            p = subprocess.run([exe, gdir, 'U'], capture_output=True, text=True, timeout=120)
+            got = [norm_line(l) for l in p.stdout.splitlines() if not l.startswith(('NS ', 'DEP '))]
+            d = first_diff(girgen.GLIB_NAMES_DUMP, got)
+            if p.returncode != 0 or d:
+                ck.failing_input('the typelib does not describe the GIR it was compiled from', dict(gir=girgen.GLIB_NAMES_DOC, included=girgen.GLIB_NAMES_DEP),
+                                 detail=dict(line=d[0], expected=d[1], in_typelib=d[2]) if d else p.stderr[-400:])
         for i in range(nns):
             g = girgen.Gen(rng)
             # every other document refers to types of two included namespaces (same-named records, a pointer record)
             g.foreign = i % 2 == 1
             ns = g.namespace(rng.choice([3, 6, 10, 16]))
+            ns['entries'] += [dict(e_) for e_ in girgen.ALIAS_FIXTURE]
             if g.foreign:
                 # every type of the included namespaces in parameter, return and element position, whatever the dice said
                 xt = [('X', 'Item'), ('Y', 'Item'), ('X', 'Other'), ('X', 'Handle'), ('Y', 'Handle')]
@@ -58,7 +76,8 @@ def main(tier, seed):
                                               throws=False))
             gir = os.path.join(tmp, 'T-1.0.gir')
             tl = os.path.join(tmp, 'T-1.0.typelib')
-            xml = girgen.to_gir(ns, includes=[('X', '1.0'), ('Y', '1.0')] if g.foreign else ())
+            incl = ([('X', '1.0'), ('TX', '1.0'), ('Y', '1.0')] if i % 4 == 1 else [('Y', '1.0'), ('X', '1.0'), ('TX', '1.0')]) if g.foreign else []
+            xml = girgen.to_gir(ns, includes=incl)
             open(gir, 'w').write(xml)
             rc, o = run([os.path.join(CBUILD, 'g-ir-compiler'), '--includedir', tmp, gir, '-o', tl], timeout=120)
             ck.count_case(dict(entries=[(e['kind'], e['name']) for e in ns['entries']]), nontrivial=len(ns['entries']) > 2,
@@ -73,6 +92,10 @@ def main(tier, seed):
                 ck.failing_input('compiling the same GIR twice gives different bytes', dict(gir=xml))
             p = subprocess.run([exe, tmp, 'T'], capture_output=True, text=True, timeout=120)
             api = [l for l in p.stdout.splitlines() if not l.startswith('DEP ')]
+            deps = sorted(l[4:] for l in p.stdout.splitlines() if l.startswith('DEP '))
+            if p.returncode == 0 and deps != sorted('%s-%s' % i_ for i_ in incl):
+                ck.failing_input('the dependencies recorded in the typelib are not the namespaces the GIR includes', dict(gir=xml),
+                                 detail=dict(includes=['%s-%s' % i_ for i_ in incl], in_typelib=deps))
             if p.returncode != 0:
                 ck.failing_input('repository API walk crashed on the compiled typelib', dict(gir=xml), detail=p.stderr[-400:])
                 continue
